@@ -5,6 +5,7 @@ XrayModel/Core.lean; the search limit lives in the sequence engines).
 import XrayProofs.CoreLimits
 import XrayProofs.CoreLimitsSim
 import XrayProofs.CoreTco
+import XrayProofs.CoreLimitsConv
 namespace XrayModel.C08
 open XrayModel.Core XrayModel.CoreLimits XrayModel.CoreLimitsSim
 
@@ -438,5 +439,173 @@ theorem no_violation_when_limits_exceed_need (cfg : Cfg) (fuel : Nat) (st : St) 
 example : (evalDeclsI 20 true { env := [], self := none, height := 0 } progLoop {}).2.calls = 1 ∧
     (evalDeclsI 20 true { env := [], self := none, height := 0 } progLoop {}).2.maxH = 1 ∧
     (evalDeclsI 20 true { env := [], self := none, height := 0 } progLoop {}).2.maxRec = 2 := ⟨rfl, rfl, rfl⟩
+
+/-! ### 8. the converse: a limit at or below the need fires — whole-run exactness of the depth and the
+recursion limit (the call limit has `call_limit_exact_run`)
+
+Helper `vioO` (CoreLimitsConv.lean): depth and recursion limit each set or not (`cfgO tco Ld Lr`, no call
+limit); if the instrumented counters are within the limits at the start and not at the end of a run of
+`evalI`, the limited run ends in a violation. Everything before the first point at which the counters
+leave the limits is simulated (`simO`); at that point — a frame creation or a tail iteration — the
+limited run raises the violation, which every enclosing construct passes on. -/
+
+/-- Depth and recursion limit each set or not, no call limit: if the need of the run (greatest frame
+height, greatest tail-iteration count of the unchecked run `evalI`) reaches a configured limit —
+height `≥` depth limit or tail count `>` recursion limit — the limited run ends in a violation. -/
+theorem limit_at_or_below_need_fires (tco : Bool) (Ld Lr : Option Nat) (fuel : Nat) (st : St)
+    (hL : ∀ l, Ld = some l → 1 ≤ l) :
+    (∀ fr e tail, ¬ WithinO Ld Lr (evalI fuel tco fr e tail { out := st.out }).2 →
+      ∃ k, (eval fuel (cfgO tco Ld Lr) fr e tail st).1 = .viol k) ∧
+    (∀ h c args, ¬ WithinO Ld Lr (callUserI fuel tco h c args { out := st.out }).2 →
+      ∃ k, (callUser fuel (cfgO tco Ld Lr) h c args st).1 = .viol k) ∧
+    (∀ ds, ¬ WithinO Ld Lr (evalDeclsI fuel tco { env := [], self := none, height := 0 } ds {}).2 →
+      ∃ k, (runProgram fuel (cfgO tco Ld Lr) ds).1 = .error (.viol k)) := by
+  have h0 : ∀ o : List String, WithinO Ld Lr ({ out := o } : StI) := by
+    intro o
+    refine ⟨?_, ?_⟩
+    · cases Ld with
+      | none => trivial
+      | some l => exact hL l rfl
+    · cases Lr with
+      | none => trivial
+      | some l => exact Nat.zero_le l
+  refine ⟨?_, ?_, ?_⟩
+  · intro fr e tail h
+    exact viol_of_isViol ((vioO tco Ld Lr st.calls fuel).eval fr e tail { out := st.out } (h0 _) h)
+  · intro hh c args h
+    exact viol_of_isViol ((vioO tco Ld Lr st.calls fuel).callUser hh c args { out := st.out } (h0 _) h)
+  · intro ds h
+    exact viol_of_exViol ((vioO tco Ld Lr 0 fuel).evalDecls { env := [], self := none, height := 0 } ds {} (h0 _) h)
+
+/-- **The depth limit is exact over whole runs.** Only the depth limit `L ≥ 1` configured. With
+`maxH` the greatest frame height created by the unchecked run: the run ends in the depth violation
+exactly when `L ≤ maxH`; otherwise (`maxH < L`) it ends in the unchecked run's result, which is not a
+violation. For expressions (any frame, start state) and whole programs. -/
+theorem depth_limit_exact_run (tco : Bool) (L fuel : Nat) (hL : 1 ≤ L) :
+    (∀ fr e tail st,
+      let q := evalI fuel tco fr e tail { out := st.out }
+      let r := (eval fuel { depthLimit := some L, tco := tco } fr e tail st).1
+      (L ≤ q.2.maxH → r = .viol .depth) ∧ (q.2.maxH < L → r = q.1 ∧ ∀ k, r ≠ .viol k) ∧
+      (r = .viol .depth ↔ L ≤ q.2.maxH)) ∧
+    (∀ ds,
+      let q := evalDeclsI fuel tco { env := [], self := none, height := 0 } ds {}
+      let r := (runProgram fuel { depthLimit := some L, tco := tco } ds).1
+      (L ≤ q.2.maxH → r = .error (.viol .depth)) ∧ (q.2.maxH < L → r = q.1 ∧ ∀ k, r ≠ .error (.viol k)) ∧
+      (r = .error (.viol .depth) ↔ L ≤ q.2.maxH)) := by
+  have cfgeq : ({ depthLimit := some L, tco := tco } : Cfg) = cfgO tco (some L) none := rfl
+  refine ⟨?_, ?_⟩
+  · intro fr e tail st q r
+    have fires : L ≤ q.2.maxH → r = .viol .depth := by
+      intro hle
+      obtain ⟨k, hk⟩ := (limit_at_or_below_need_fires tco (some L) none fuel st (by intro l h; cases h; exact hL)).1 fr e tail
+        (by intro hw; have := hw.1; simp only [optLt] at this; exact absurd this (Nat.not_lt.mpr hle))
+      have K := (kindAt (cfgO tco (some L) none) fuel).eval fr e tail st
+      show (eval fuel _ fr e tail st).1 = _
+      rw [cfgeq, hk]
+      cases k with
+      | depth => rfl
+      | calls => exact absurd rfl (K.2.1 hk)
+      | recursion => exact absurd rfl (K.2.2 hk)
+    have quiet : q.2.maxH < L → r = q.1 ∧ ∀ k, r ≠ .viol k := by
+      intro hlt
+      obtain ⟨⟨s', e1, _⟩, nv⟩ := (no_violation_when_limits_exceed_need { depthLimit := some L, tco := tco } fuel st).1 fr e tail
+        (by intro l h; cases h; exact hlt) (by intro l h; cases h) (by intro l h; cases h)
+      have : r = q.1 := by show (eval fuel _ fr e tail st).1 = _; rw [e1]
+      exact ⟨this, by rw [this]; exact nv⟩
+    refine ⟨fires, quiet, fires |> fun f => ⟨fun hr => ?_, f⟩⟩
+    by_cases hlt : q.2.maxH < L
+    · exact absurd hr ((quiet hlt).2 _)
+    · omega
+  · intro ds q r
+    have fires : L ≤ q.2.maxH → r = .error (.viol .depth) := by
+      intro hle
+      obtain ⟨k, hk⟩ := (limit_at_or_below_need_fires tco (some L) none fuel {} (by intro l h; cases h; exact hL)).2.2 ds
+        (by intro hw; have := hw.1; simp only [optLt] at this; exact absurd this (Nat.not_lt.mpr hle))
+      have K := (kindAt (cfgO tco (some L) none) fuel).evalDecls { env := [], self := none, height := 0 } ds {}
+      show (runProgram fuel _ ds).1 = _
+      rw [cfgeq, hk]
+      cases k with
+      | depth => rfl
+      | calls => exact absurd rfl (K.2.1 (by rw [← hk]; rfl))
+      | recursion => exact absurd rfl (K.2.2 (by rw [← hk]; rfl))
+    have quiet : q.2.maxH < L → r = q.1 ∧ ∀ k, r ≠ .error (.viol k) := by
+      intro hlt
+      obtain ⟨⟨s', e1, _⟩, nv⟩ := (no_violation_when_limits_exceed_need { depthLimit := some L, tco := tco } fuel {}).2 ds
+        (by intro l h; cases h; exact hlt) (by intro l h; cases h) (by intro l h; cases h)
+      have : r = q.1 := by show (runProgram fuel _ ds).1 = _; rw [e1]
+      exact ⟨this, by rw [this]; exact nv⟩
+    refine ⟨fires, quiet, ⟨fun hr => ?_, fires⟩⟩
+    by_cases hlt : q.2.maxH < L
+    · exact absurd hr ((quiet hlt).2 _)
+    · omega
+
+/-- **The recursion limit is exact over whole runs.** Only the recursion limit `L` configured. With
+`maxRec` the greatest number of consecutive tail iterations of one trampoline in the unchecked run: the
+run ends in the recursion violation exactly when `L < maxRec`; otherwise it ends in the unchecked run's
+result, which is not a violation. -/
+theorem recursion_limit_exact_run (tco : Bool) (L fuel : Nat) :
+    (∀ fr e tail st,
+      let q := evalI fuel tco fr e tail { out := st.out }
+      let r := (eval fuel { recLimit := some L, tco := tco } fr e tail st).1
+      (L < q.2.maxRec → r = .viol .recursion) ∧ (q.2.maxRec ≤ L → r = q.1 ∧ ∀ k, r ≠ .viol k) ∧
+      (r = .viol .recursion ↔ L < q.2.maxRec)) ∧
+    (∀ ds,
+      let q := evalDeclsI fuel tco { env := [], self := none, height := 0 } ds {}
+      let r := (runProgram fuel { recLimit := some L, tco := tco } ds).1
+      (L < q.2.maxRec → r = .error (.viol .recursion)) ∧ (q.2.maxRec ≤ L → r = q.1 ∧ ∀ k, r ≠ .error (.viol k)) ∧
+      (r = .error (.viol .recursion) ↔ L < q.2.maxRec)) := by
+  have cfgeq : ({ recLimit := some L, tco := tco } : Cfg) = cfgO tco none (some L) := rfl
+  refine ⟨?_, ?_⟩
+  · intro fr e tail st q r
+    have fires : L < q.2.maxRec → r = .viol .recursion := by
+      intro hle
+      obtain ⟨k, hk⟩ := (limit_at_or_below_need_fires tco none (some L) fuel st (by intro l h; cases h)).1 fr e tail
+        (by intro hw; have := hw.2; simp only [optLeN] at this; exact absurd this (Nat.not_le.mpr hle))
+      have K := (kindAt (cfgO tco none (some L)) fuel).eval fr e tail st
+      show (eval fuel _ fr e tail st).1 = _
+      rw [cfgeq, hk]
+      cases k with
+      | depth => exact absurd rfl (K.1 hk)
+      | calls => exact absurd rfl (K.2.1 hk)
+      | recursion => rfl
+    have quiet : q.2.maxRec ≤ L → r = q.1 ∧ ∀ k, r ≠ .viol k := by
+      intro hlt
+      obtain ⟨⟨s', e1, _⟩, nv⟩ := (no_violation_when_limits_exceed_need { recLimit := some L, tco := tco } fuel st).1 fr e tail
+        (by intro l h; cases h) (by intro l h; cases h) (by intro l h; cases h; exact hlt)
+      have : r = q.1 := by show (eval fuel _ fr e tail st).1 = _; rw [e1]
+      exact ⟨this, by rw [this]; exact nv⟩
+    refine ⟨fires, quiet, ⟨fun hr => ?_, fires⟩⟩
+    by_cases hlt : q.2.maxRec ≤ L
+    · exact absurd hr ((quiet hlt).2 _)
+    · omega
+  · intro ds q r
+    have fires : L < q.2.maxRec → r = .error (.viol .recursion) := by
+      intro hle
+      obtain ⟨k, hk⟩ := (limit_at_or_below_need_fires tco none (some L) fuel {} (by intro l h; cases h)).2.2 ds
+        (by intro hw; have := hw.2; simp only [optLeN] at this; exact absurd this (Nat.not_le.mpr hle))
+      have K := (kindAt (cfgO tco none (some L)) fuel).evalDecls { env := [], self := none, height := 0 } ds {}
+      show (runProgram fuel _ ds).1 = _
+      rw [cfgeq, hk]
+      cases k with
+      | depth => exact absurd rfl (K.1 (by rw [← hk]; rfl))
+      | calls => exact absurd rfl (K.2.1 (by rw [← hk]; rfl))
+      | recursion => rfl
+    have quiet : q.2.maxRec ≤ L → r = q.1 ∧ ∀ k, r ≠ .error (.viol k) := by
+      intro hlt
+      obtain ⟨⟨s', e1, _⟩, nv⟩ := (no_violation_when_limits_exceed_need { recLimit := some L, tco := tco } fuel {}).2 ds
+        (by intro l h; cases h) (by intro l h; cases h) (by intro l h; cases h; exact hlt)
+      have : r = q.1 := by show (runProgram fuel _ ds).1 = _; rw [e1]
+      exact ⟨this, by rw [this]; exact nv⟩
+    refine ⟨fires, quiet, ⟨fun hr => ?_, fires⟩⟩
+    by_cases hlt : q.2.maxRec ≤ L
+    · exact absurd hr ((quiet hlt).2 _)
+    · omega
+
+-- the loop program (tco on) needs height 1 and 2 tail iterations: depth limit 1 fires, 2 does not;
+-- recursion limit 1 fires, 2 does not (the `rfl` examples above are these instances)
+example : (runProgram 20 { depthLimit := some 1 } progLoop).1 = .error (.viol .depth) :=
+  ((depth_limit_exact_run true 1 20 (Nat.le_refl 1)).2 progLoop).1 (by decide)
+example : (runProgram 20 { recLimit := some 1 } progLoop).1 = .error (.viol .recursion) :=
+  ((recursion_limit_exact_run true 1 20).2 progLoop).1 (by decide)
 
 end XrayModel.C08
